@@ -87,6 +87,10 @@ pub struct Case {
     /// and are awaited after the shutdown
     #[serde(default)]
     pub backlog_at_shutdown: bool,
+    /// end through the writer's "no appenders left" exit instead of shut_down(): the join handle
+    /// is forgotten, then the last queue handle is dropped
+    #[serde(default)]
+    pub end_by_forget: bool,
 }
 
 pub fn flush_interval(us: u32) -> Duration {
@@ -203,7 +207,10 @@ pub fn check(case: &Case) -> CaseResult {
         }
         r
     });
-    drop(q);
+    let mut q = Some(q);
+    if !case.end_by_forget {
+        drop(q.take());
+    }
     let queued_at_shutdown = backlog && (gate.consumed() as usize) < total;
     let opener = backlog.then(|| {
         let gate = gate.clone();
@@ -219,10 +226,37 @@ pub fn check(case: &Case) -> CaseResult {
         })
     });
     log.push(Ev::HandleDropStart);
-    let sd = no_panic("queue-shutdown", || handle.shut_down());
-    if let Some(o) = opener {
-        let _ = o.join();
-    }
+    let sd = if case.end_by_forget {
+        let r = no_panic("queue-forget", || {
+            handle.forget();
+            drop(q.take());
+        });
+        // the writer notices that no appender is left, drains, flushes and closes on its own
+        let t0 = std::time::Instant::now();
+        let mut closed = false;
+        while t0.elapsed() < Duration::from_secs(10) {
+            if log.count(|e| matches!(e, Ev::StreamDropped)) > 0 {
+                closed = true;
+                break;
+            }
+            std::thread::sleep(Duration::from_micros(200));
+        }
+        if let Some(o) = opener {
+            let _ = o.join();
+        }
+        r?;
+        if !closed {
+            // whether a forgotten queue terminates at all is C05's question
+            return Ok(vec!["inconclusive-timeout"]);
+        }
+        Ok(())
+    } else {
+        let r = no_panic("queue-shutdown", || handle.shut_down());
+        if let Some(o) = opener {
+            let _ = o.join();
+        }
+        r
+    };
     sd?;
     log.push(Ev::HandleDropEnd);
     let pending = match res {
@@ -280,6 +314,12 @@ pub fn check(case: &Case) -> CaseResult {
     }
     if case.gated {
         classes.push("gated-writer");
+    }
+    if case.end_by_forget {
+        classes.push("ended-by-forget-and-last-handle-drop");
+        if queued_at_shutdown {
+            classes.push("backlog-when-last-handle-dropped");
+        }
     }
     if queued_at_shutdown {
         classes.push("backlog-at-shutdown");
@@ -407,8 +447,9 @@ pub fn arb_case(max_producers: usize, max_ops: usize) -> impl Strategy<Value = C
         prop::collection::vec(any::<u8>(), 0..8),
         prop::bool::weighted(0.7),
         prop::bool::weighted(0.25),
+        prop::bool::weighted(0.25),
     )
-        .prop_map(|(boxed, flush_us, producers, results, gate, jitter, gated, backlog_at_shutdown)| Case {
+        .prop_map(|(boxed, flush_us, producers, results, gate, jitter, gated, backlog_at_shutdown, end_by_forget)| Case {
             boxed,
             flush_us,
             producers,
@@ -417,10 +458,11 @@ pub fn arb_case(max_producers: usize, max_ops: usize) -> impl Strategy<Value = C
             jitter,
             gated,
             backlog_at_shutdown,
+            end_by_forget,
         })
 }
 
-pub const RULE: &str = "1-6 real producer threads x 0-25 ops (append, bursts, flush requests fired or awaited, yields/spins/sleeps, continuing through a clone) on a typed or boxed queue with capacity > total appends; the library's own writer thread; per-call stream results Ok/Validation/Io; writer progress owned by a generated fuel script (grants, pauses, wait-until-parked-at-the-gate) so that park/unpark races and drained-then-refilled queues occur; flush interval 1us / 1ms / 50ms; in a quarter of the cases the gate stays shut until shut_down() has begun, so that the shutdown-time drain meets a backlog with Io / Validation results inside it; no tracing subscriber (in-band report path live). Oracle over the global event log after shut_down(): every appended (producer, seq) reaches the stream exactly once, per-producer seq increasing, nothing else except the in-band report (only after a validation error, process-wide <= 1/s), stream flushed after the last entry and dropped. Non-trivial = >=2 producers with >=2 entries each and (a non-Ok result or a flush request)";
+pub const RULE: &str = "1-6 real producer threads x 0-25 ops (append, bursts, flush requests fired or awaited, yields/spins/sleeps, continuing through a clone) on a typed or boxed queue with capacity > total appends; the library's own writer thread; per-call stream results Ok/Validation/Io; writer progress owned by a generated fuel script (grants, pauses, wait-until-parked-at-the-gate) so that park/unpark races and drained-then-refilled queues occur; flush interval 1us / 1ms / 50ms; in a quarter of the cases the gate stays shut until shut_down() has begun, so that the shutdown-time drain meets a backlog with Io / Validation results inside it; no tracing subscriber (in-band report path live). a quarter of the cases end through forget() + drop of the last handle (the writer's own 'no appenders left' exit) instead of shut_down(). Oracle over the global event log after the end: every appended (producer, seq) reaches the stream exactly once, per-producer seq increasing, nothing else except the in-band report (only after a validation error, process-wide <= 1/s), stream flushed after the last entry and dropped. Non-trivial = >=2 producers with >=2 entries each and (a non-Ok result or a flush request)";
 
 pub fn run(ctx: &mut Ctx) {
     ctx.assume("thread interleavings are sampled (perturbed by generated yields/spins/sleeps in producers and in the stream callbacks and by the fuel script), not enumerated");
@@ -431,7 +473,7 @@ pub fn run(ctx: &mut Ctx) {
         SubCfg::new("c01-delivery", RULE, if q { 1_500 } else { 40_000 })
             .threads(ctx.tier.pick(4, 8))
             .shrink_iters(200)
-            .mandatory(&["non-ok-result", "flush-request", "boxed-queue", "typed-queue", "gated-writer", "backlog-at-shutdown", "io-result-inside-shutdown-backlog"]),
+            .mandatory(&["non-ok-result", "flush-request", "boxed-queue", "typed-queue", "gated-writer", "backlog-at-shutdown", "io-result-inside-shutdown-backlog", "backlog-when-last-handle-dropped"]),
         || arb_case(6, 25),
         check,
     );
